@@ -113,10 +113,12 @@ PROPS["C03"] = Prop(
 
 PROPS["C04"] = Prop(
     "C04",
-    family_driver={"linsolve": ("drv_linalg", "plain")},
+    family_driver={"linsolve": ("drv_linalg", "plain"), "linbig": ("drv_linalg", "plain")},
     model_families={"linsolve"},
-    generate=lambda rng, tier: G.gen_linsolve(rng, tier),
-    rule=_lu_rule + "; right-hand sides uniform in Z_p, dense layout matched to the sparse ordering, padding rows hold garbage",
+    generate=lambda rng, tier: G.gen_linsolve(rng, tier) + G.gen_linbig(rng, tier),
+    rule=_lu_rule + "; right-hand sides uniform in Z_p, dense layout matched to the sparse ordering, padding rows hold garbage; "
+         "between Factor and Solve the same solver object factors a second matrix into other storage; family linbig "
+         "(implementation oracle A x = b only): n = 130..370 with up to 10^5 stored elements per block",
     trusted=COMMON_TRUST + ["Zp element type in place of double"],
     assumptions=["non-zero pivots"],
     nontrivial=lambda l: int(l.split()[5]) >= 2,
